@@ -1,6 +1,6 @@
 (* C15 — sense-aware operations select the right optimum. *)
 Require Import Ommx.Num Ommx.Poly Ommx.Msg Ommx.Eval Ommx.Tree Ommx.Arith Ommx.Inst
-        Ommx.Transform Ommx.TransformProofs Ommx.Samples Ommx.SamplesProofs.
+        Ommx.InstProofs Ommx.InstTotal Ommx.Transform Ommx.TransformProofs Ommx.Samples Ommx.SamplesProofs Ommx.AsMinInst.
 From Coq Require Import String.
 Close Scope string_scope. Open Scope list_scope. Open Scope Qc_scope.
 
@@ -72,3 +72,49 @@ Example C15_nonvacuous :
                ss_feasible_unrelaxed := []; ss_sense := 1 |} in
   best_feasible_id ss = Some 2%N /\ best_feasible_unrelaxed_id ss = Some 1%N.
 Proof. vm_compute. split; reflexivity. Qed.
+
+
+(* ---------------------------------------------------------------------------------------------
+   INSTANCE LEVEL (AsMinInst.v): as_minimization through Instance::evaluate, for EVERY dropping
+   test (negation never passes through it): evaluation of the converted instance is evaluation of
+   the original with the objective negated (or untouched for a minimisation) -- as an equation on
+   option solution, failures included --, every record, both flags, the state identical; the
+   comparison used by best_feasible ranks any two evaluated states the same way on both; the best of
+   a finite list of states is the same.  Every sense other than MINIMIZE (0 included) is treated
+   like MAXIMIZE, as in Samples.better. *)
+Theorem C15_as_min_eval : forall tiny I I', as_min tiny I = Some I' -> forall x,
+  inst_eval I' x = if (i_sense I =? SENSE_MIN)%Z then inst_eval I x
+                   else option_map neg_objective (inst_eval I x).
+Proof. exact as_min_eval_eq. Qed.
+Print Assumptions C15_as_min_eval.
+
+Theorem C15_as_min_eval_fields : forall tiny I I', as_min tiny I = Some I' -> forall x,
+  ((exists sol, inst_eval I x = Some sol) <-> (exists sol', inst_eval I' x = Some sol')) /\
+  (forall sol sol', inst_eval I x = Some sol -> inst_eval I' x = Some sol' ->
+     so_objective sol' = (if (i_sense I =? SENSE_MIN)%Z then so_objective sol else - so_objective sol) /\
+     so_evaluated sol' = so_evaluated sol /\ so_feasible sol' = so_feasible sol /\
+     so_feasible_relaxed sol' = so_feasible_relaxed sol /\ so_state sol' = so_state sol /\
+     so_dvs sol' = so_dvs sol).
+Proof. exact as_min_eval. Qed.
+Print Assumptions C15_as_min_eval_fields.
+
+Theorem C15_as_min_defined : forall tiny I,
+  as_min tiny I <> None <-> (i_sense I = SENSE_MIN \/ i_obj I <> Some FUnset).
+Proof. exact as_min_defined. Qed.
+Print Assumptions C15_as_min_defined.
+
+Theorem C15_as_min_ranking_eval : forall tiny I I', as_min tiny I = Some I' -> forall x y sx sy sx' sy',
+    inst_eval I x = Some sx -> inst_eval I y = Some sy ->
+    inst_eval I' x = Some sx' -> inst_eval I' y = Some sy' ->
+    better (i_sense I') (so_objective sx') (so_objective sy')
+    = better (i_sense I) (so_objective sx) (so_objective sy).
+Proof. exact as_min_eval_better. Qed.
+Print Assumptions C15_as_min_ranking_eval.
+
+Theorem C15_as_min_best_state : forall tiny I I', as_min tiny I = Some I' -> forall xs,
+  best_state I' xs = best_state I xs.
+Proof. exact as_min_best_state. Qed.
+Print Assumptions C15_as_min_best_state.
+Check as_min_eval_optimal.
+Check as_min_eval_nonvacuous.
+Print Assumptions as_min_eval_nonvacuous.
